@@ -11,9 +11,9 @@ theorem wellTyped_cell {h : Heap} (hw : wellTyped h = true) {a : Nat} {o : Obj} 
   cases ho
   simp
 
-/-- **the simulation**: on a well-typed heap every successful `save` is matched by the VM run on the emitted
-op-codes (every fuel, every hash table `hr`) -/
-theorem save_load (hr : String → String → Bool) {h : Heap} (hw : wellTyped h = true) : ∀ fuel, SaveOK hr h fuel := by
+/-- **the simulation**: every successful `save` is matched by the VM run on the emitted op-codes (every heap,
+every fuel, every hash table `hr`) -/
+theorem save_load (hr : String → String → Bool) (h : Heap) : ∀ fuel, SaveOK hr h fuel := by
   intro fuel
   induction fuel with
   | zero =>
@@ -35,7 +35,6 @@ theorem save_load (hr : String → String → Bool) {h : Heap} (hw : wellTyped h
         cases ho : h[a]? with
         | none => simp [save, hg, ho] at hsave
         | some o =>
-          have hok := wellTyped_cell hw ho
           cases o with
           | str s => exact save_str_load I hg ho hsave
           | tuple xs => exact save_tuple_load ih I hg ho hsave
@@ -43,9 +42,9 @@ theorem save_load (hr : String → String → Bool) {h : Heap} (hw : wellTyped h
           | dict kvs => exact save_dict_load ih I hg ho hsave
           | set xs => exact save_set_load ih I hg ho hsave
           | frozenset xs => exact save_frozenset_load ih I hg ho hsave
-          | global m q => exact save_global_load ih I hg ho hok hsave
-          | inst c s => exact save_inst_load ih I hg ho hok hsave
-          | reduced c kvs s => exact save_reduced_load ih I hg ho hok hsave
+          | global m q => exact save_global_load ih I hg ho hsave
+          | inst c s => exact save_inst_load ih I hg ho hsave
+          | reduced c kvs s => exact save_reduced_load ih I hg ho hsave
     | _ => exact save_imm_load (fuel + 1) (by intro a; simp) I hsave
 
 theorem initInv (hr : String → String → Bool) (h : Heap) :
@@ -64,14 +63,13 @@ theorem initInv (hr : String → String → Bool) (h : Heap) :
   cell := fun _ _ e => by cases e
 
 /-- the whole run: the VM accepts the dumped stream, and its final state is related to the pickler's -/
-theorem dump_run (hr : String → String → Bool) {h : Heap} {r : Val} {ops : List Op} (hw : wellTyped h = true)
-    (hd : dump h r = some ops) :
+theorem dump_run (hr : String → String → Bool) {h : Heap} {r : Val} {ops : List Op} (hd : dump h r = some ops) :
     ∃ (g : Nat → Option Nat) (st : DState) (L : LState) (r' : Val),
       save h (dumpFuel h) r (initD h) = some st ∧ ops = st.out.toList ++ [.stop] ∧
       Inv hr h g (fun _ => False) st L ∧ run hr ops initL = some L ∧ L.stack = [r'] ∧ ValRel g r r' := by
   simp only [dump, Option.map_eq_some_iff] at hd
   obtain ⟨st, hs, rfl⟩ := hd
-  obtain ⟨g, L, r', s, hstk, hv⟩ := save_load hr hw (dumpFuel h) r _ _ _ _ _ (initInv hr h) hs
+  obtain ⟨g, L, r', s, hstk, hv⟩ := save_load hr h (dumpFuel h) r _ _ _ _ _ (initInv hr h) hs
   refine ⟨g, st, L, r', hs, by simp, s.inv, ?_, hstk, hv⟩
   have : (st.out.push Op.stop).toList = st.out.toList ++ [.stop] := by simp
   rw [this]
@@ -86,11 +84,11 @@ theorem isoW_of_inv {hr : String → String → Bool} {h : Heap} {g : Nat → Op
     obtain ⟨o', ho', hrel⟩ := hd (Or.inl id)
     exact ⟨o, o', ho, ho', hrel⟩
 
-/-- **load ∘ dump**: on a well-typed heap, loading what was dumped rebuilds an isomorphic graph; the rebuilt heap
-has exactly one cell per object the pickler memoised -/
-theorem load_dump_iso_wt {h : Heap} {r : Val} {ops : List Op} (hw : wellTyped h = true) (hd : dump h r = some ops) :
+/-- **load ∘ dump**: loading what was dumped rebuilds an isomorphic graph; the rebuilt heap has exactly one cell
+per object the pickler memoised -/
+theorem load_dump_iso_count {h : Heap} {r : Val} {ops : List Op} (hd : dump h r = some ops) :
     ∃ h' r', load ops = some (h', r') ∧ Iso h r h' r' ∧ dumpCount h r = some h'.size := by
-  obtain ⟨g, st, L, r', hs, _, I, hrun, hstk, hv⟩ := dump_run noHash hw hd
+  obtain ⟨g, st, L, r', hs, _, I, hrun, hstk, hv⟩ := dump_run noHash hd
   refine ⟨L.heap, r', ?_, ⟨g, isoW_of_inv I hv⟩, ?_⟩
   · simp only [load, hrun, hstk]
   · simp only [dumpCount, hs, Option.map_some, I.heapsz]
@@ -135,18 +133,18 @@ theorem dumpCount_eq_of_iso {h h' : Heap} {r r' : Val} (iso : Iso h r h' r') (hs
   · rw [hx, hy]
     simp only [Option.map_some, h1.n_eq]
 
-/-- **the round trip closes**: for a well-typed heap all of whose cells the pickler visits, the loaded heap is
-isomorphic, again well-typed, again without unvisited cells, and dumps to the same op-codes -/
-theorem roundtrip {h : Heap} {r : Val} {ops : List Op} (hw : wellTyped h = true) (hd : dump h r = some ops)
+/-- **the round trip closes**: for a heap all of whose cells the pickler visits, the loaded heap is isomorphic,
+again without unvisited cells, and dumps to the same op-codes -/
+theorem roundtrip {h : Heap} {r : Val} {ops : List Op} (hd : dump h r = some ops)
     (hall : dumpCount h r = some h.size) :
-    ∃ h' r', load ops = some (h', r') ∧ Iso h r h' r' ∧ h'.size = h.size ∧ wellTyped h' = true ∧
+    ∃ h' r', load ops = some (h', r') ∧ Iso h r h' r' ∧ h'.size = h.size ∧
       dumpCount h' r' = some h'.size ∧ dump h' r' = some ops := by
-  obtain ⟨g, st, L, r', hs, _, I, hrun, hstk, hv⟩ := dump_run noHash hw hd
+  obtain ⟨g, st, L, r', hs, _, I, hrun, hstk, hv⟩ := dump_run noHash hd
   have hiso : Iso h r L.heap r' := ⟨g, isoW_of_inv I hv⟩
   have hsz : h.size = L.heap.size := by
     simp only [dumpCount, hs, Option.map_some, Option.some.injEq] at hall
     rw [I.heapsz]; exact hall.symm
-  refine ⟨L.heap, r', ?_, hiso, hsz.symm, loaded_wellTyped hw I, ?_, ?_⟩
+  refine ⟨L.heap, r', ?_, hiso, hsz.symm, ?_, ?_⟩
   · simp only [load, hrun, hstk]
   · rw [← dumpCount_eq_of_iso hiso hsz, hall, hsz]
   · rw [← dump_eq_of_iso hiso hsz]; exact hd
